@@ -127,7 +127,7 @@ GEO_TB = ["Coq 8.16.1 kernel; the stdlib real-number axioms (ClassicalDedekindRe
 PROPS["C15"] = dict(streams=["C15"], kernel_cases=0, timeout=600,
     rule="random pairs of locations (poles, +-1e-9 of poles, antimeridian, antipodal and neighbouring pairs), distances 0, sub-millimetre, around 0.3 m, metre, km scales, near half the circumference, all bearings incl. multiples of 45 deg; per case 10 clause flags (symmetric, zero, range, destination in range, distance back, bearing back, haversine monotone, metres<->haversine, normalisation idempotent / haversine unchanged, semicircle round trip) + a sample of cases certified by interval arithmetic against the real-valued model. non-trivial: all; distinct = distinct case lines",
     trusted_base=GEO_TB, assumptions=["bearing-back clause applied for d >= 1 m, |lat| <= 89 deg, d <= half circumference - 1000 km, tolerance 1e-6 deg scaled by conditioning 1/(sin(d/R) cos lat)"],
-    partial=["theorems are about real-valued formulas; float64 rounding is bounded per sampled input (interval), not for all inputs", "destination distance-back and bearing-back are checked as flags, not proved over the reals"])
+    partial=["theorems are about real-valued formulas; float64 rounding is bounded per sampled input (interval), not for all inputs", "destination distance-back and bearing-back are proved over the reals with the two Atan2 calls entering through their defining property (SphereDest.v); in float64 they are checked as flags"])
 PROPS["C14"] = dict(streams=["C14"], kernel_cases=0, timeout=600,
     rule="random centres (poles, antimeridian) and radii (0, sub-millimetre, around the 0.28 m resolution guard, metre..half circumference, pole-grazing and antimeridian-grazing within 1e-6 relative); per case 5 flags: no NaN, inside world bounds, 48 probe locations (bearings every 45 deg, around the tangent bearings, random) whose own great-circle distance is <= radius lie in the rectangle within 1 cm on the ground (longitudes modulo 360), full longitude range when the disc reaches a pole, degenerate rectangle for unresolvable radii; + a sample certified by interval arithmetic (latitude band, tangent-longitude law). non-trivial: all; distinct = distinct case lines",
     trusted_base=GEO_TB, assumptions=["probe locations are proposed by DestinationPoint and accepted by DistanceTo <= radius (DistanceTo is certified against the model by the C15 goals)"],
